@@ -346,13 +346,39 @@ static std::string ledger_check(const LedgerIn &L, const std::vector<std::vector
 
 // ---------------------------------------------------------------- C03 / C14 schedule exploration
 
+static long main_C03(const std::string &tier) { return tier == "quick" ? 400 * 60 : 5000 * 300; }
+static long enum_cfgs(const std::string &tier) { return tier == "quick" ? 6 : 150; }
 static long plan_C03(const std::string &tier) {
   if (is_prod()) return tier == "quick" ? 2 : 8;
-  return tier == "quick" ? 400 * 60 : 5000 * 300;
+  return main_C03(tier) + enum_cfgs(tier) * ENUM_PER_CFG;
+}
+
+// small configurations for the bounded-preemption enumeration (few decision points, so that ENUM_MAXK covers them)
+static void enum_cfg(Rng &g, Scn &s) {
+  fill_base(g, s, 3);
+  int T = g.chance(0.6) ? 2 : (g.chance(0.5) ? 1 : 3);
+  long ch = (long)CHB();
+  long chunks = (long)g.below(4);
+  long len = chunks * ch + (g.chance(0.4) ? 0 : (long)g.below(ch));
+  if (g.chance(0.3)) len = std::max<long>(0, (chunks + 1) * ch - 1 - (long)g.below(16));
+  if (len > 96) len = 96 - (long)g.below(17);          // keep the number of decision points below ENUM_MAXK
+  s.i["T"] = T;
+  s.i["len"] = len;
+  s.i["sio"] = 0; s.i["inb"] = -1; s.i["outb"] = -1;
+  s.i["enum"] = 1;
 }
 
 static void gen_sched_cfg(const std::string &tier, uint64_t seed, long idx, Scn &s, const char *prop, int K) {
   s.prop = prop; s.tier = tier; s.seed = seed; s.index = idx;
+  if (!is_prod() && idx >= main_C03(tier)) {
+    long e = (idx - main_C03(tier)) / ENUM_PER_CFG, j = (idx - main_C03(tier)) % ENUM_PER_CFG;
+    Rng g(Rng::mix(seed, 0xE03, (uint64_t)e));
+    enum_cfg(g, s);
+    s.i["op"] = e % 2;
+    Rng gs(Rng::mix(seed, 0xE03E, (uint64_t)idx));
+    enum_sched(gs, s, 1, j);
+    return;
+  }
   long cfgi = idx / K;
   Rng g(Rng::mix(seed, 0xC03, (uint64_t)cfgi));     // C03 and C14 share configurations on purpose
   fill_base(g, s, 4);
@@ -449,9 +475,19 @@ static Explored explore(const Scn &s, HangPolicy explored_hp = HANG_VIOLATION) {
   return X;
 }
 
+static void enum_probe(const Scn &s, const Explored &X) {
+  if (!s.geti("enum")) return;
+  g_stats.add("enum.runs", 1);
+  if (X.exp.sr.decision_points > ENUM_MAXK) g_stats.add("enum.runs_with_more_decision_points_than_enumerated", 1);
+  g_stats.max("enum.max_decision_points_in_a_run", X.exp.sr.decision_points);
+  if (s.geti("ea1", -1) >= X.exp.sr.decision_points) g_stats.add("enum.preemption_index_beyond_end(equals canonical)", 1);
+  if (X.exp.sr.preemptions > 0) g_stats.add("enum.runs_with_forced_preemption", 1);
+}
+
 static Verdict run_C03(const Scn &s) {
   Explored X = explore(s);
   if (X.skipped) return skip(X.skip_reason);
+  enum_probe(s, X);
   Verdict v;
   v.case_hash = fnv1a_u64(cfg_hash(s), X.exp.sr.trace_hash);
   v.nontrivial = X.T >= 2 && X.exp.sr.preemptions >= 1;
@@ -492,6 +528,7 @@ static long plan_C14(const std::string &tier) { return plan_C03(tier); }
 static Verdict run_C14(const Scn &s) {
   Explored X = explore(s, HANG_MONITOR_ONLY);   // termination is C04's statement, not C14's
   if (X.skipped) return skip(X.skip_reason);
+  enum_probe(s, X);
   Verdict v;
   v.case_hash = fnv1a_u64(cfg_hash(s), X.exp.sr.trace_hash);
   v.nontrivial = X.T >= 2 && X.exp.sr.preemptions >= 1;
@@ -532,13 +569,23 @@ static Verdict run_C14(const Scn &s) {
 
 // ---------------------------------------------------------------- C04 termination
 
+static long main_C04(const std::string &tier) { return tier == "quick" ? 40000 : 2000000; }
 static long plan_C04(const std::string &tier) {
   if (is_prod()) return tier == "quick" ? 3 : 12;
-  return tier == "quick" ? 40000 : 2000000;
+  return main_C04(tier) + enum_cfgs(tier) * ENUM_PER_CFG;
 }
 
 static void gen_C04(const std::string &tier, uint64_t seed, long idx, Scn &s) {
   s.prop = "C04"; s.tier = tier; s.seed = seed; s.index = idx;
+  if (!is_prod() && idx >= main_C04(tier)) {
+    long e = (idx - main_C04(tier)) / ENUM_PER_CFG, j = (idx - main_C04(tier)) % ENUM_PER_CFG;
+    Rng ge(Rng::mix(seed, 0xE04, (uint64_t)e));
+    enum_cfg(ge, s);
+    s.i["op"] = e % 2;       // 0 enc, 1 dec
+    Rng gs(Rng::mix(seed, 0xE04E, (uint64_t)idx));
+    enum_sched(gs, s, 1, j);
+    return;
+  }
   Rng g(Rng::mix(seed, 0xC04, (uint64_t)idx));
   fill_base(g, s, 4);
   long ch = (long)CHB();
@@ -600,6 +647,11 @@ static Verdict run_C04(const Scn &s) {
   v.case_hash = fnv1a_u64(cfg_hash(s), r.sr.trace_hash);
   v.trace_hash = r.sr.trace_hash;
   if (op != 2 && r.sr.threads_created != T) g_stats.add("probe.threads_created_ne_T", 1);
+  if (s.geti("enum")) {
+    g_stats.add("enum.runs", 1);
+    if (r.sr.decision_points > ENUM_MAXK) g_stats.add("enum.runs_with_more_decision_points_than_enumerated", 1);
+    if (r.sr.preemptions > 0) g_stats.add("enum.runs_with_forced_preemption", 1);
+  }
   return v;
 }
 
